@@ -9,7 +9,7 @@ CHECK = {
         {"pkg": ".", "tags": "e2e_testing", "hide": ["interface_emit_test.go"],
          "files": ["netsim/ns_core_test.go", "netsim/ns_world_test.go", "netsim/ns_history_test.go", "netsim/c36n_test.go"],
          "run": "^TestC36_WireLevel", "env": {"GOMAXPROCS": "1", "GODEBUG": "asyncpreemptoff=1"},
-         "quick": {"scale": 1, "shards": 1, "timeout": 900},
+         "quick": {"scale": 1, "shards": 4, "timeout": 900},
          "thorough": {"scale": 4, "shards": 12, "timeout": 2400}},
     ],
     "rule": "wire level: a lighthouse and 3-4 hosts that learn each other only through it, each host with a generated "
